@@ -20,6 +20,7 @@ import GdVerif.Run.IdCheck
 import GdVerif.Run.Real
 import GdVerif.Run.Cli
 import GdVerif.Run.CliPlan
+import GdVerif.Run.CliBson
 import GdVerif.Run.Quake
 import GdVerif.Run.GenQuake
 import GdVerif.Run.QuakeFaults
@@ -67,6 +68,7 @@ def allEntries : List (String × (List String → String)) := List.flatten [
   realEntries,
   cliEntries,
   cliPlanEntries,
+  cliBsonEntries,
   quakeEntries,
   quakeFaultEntries,
   unreal2Entries,
